@@ -255,8 +255,9 @@ def arg_mode_bracketed(ctx):
     ctx.ob(ok, u, 'the argument is evaluated on the given target in this frame: %s' % norm(e), node=e)
     st = stmt_of(e)
     rv = st.targets[0].id if isinstance(st, ast.Assign) and is_name(st.targets[0]) else None
-    ctx.ob(rv is not None and all(is_name(r.value, rv) for r in rets), u,
-           'the evaluated argument is what is returned: %s' % [norm(r) for r in rets])
+    okr = (rv is not None and all(is_name(r.value, rv) for r in rets)) or \
+        (isinstance(st, ast.Return) and len(rets) == 1 and rets[0] is st and st.value is e)
+    ctx.ob(okr, u, 'the evaluated argument is what is returned: %s' % [norm(r) for r in rets])
     # call sites: none under a recovering handler of the same frame
     n_sites = 0
     for cu in p.package_units():
